@@ -274,7 +274,7 @@ impl Monitor for C07 {
         ]
     }
     fn rule(&self) -> &'static str {
-        "seeded random histories on both proxies (even history index: cw1-whitelist, odd: cw1-subkeys) mixing admin/allowance/permission changes with Execute calls carrying 0-5 CosmosMsg of every kind in this build (bank send/burn, staking x3, distribution x3, wasm x3, ibc x2, gov, stargate, any) from admins, subkeys, ex-admins and strangers; each Execute is judged against an independent authorisation model evaluated on the pre-state and the Response.messages are compared element by element with the submitted list. distinct = (proxy kind, caller class, outcome, ordered list of message kinds, model reason)"
+        "seeded random histories on both proxies (even history index: cw1-whitelist, odd: cw1-subkeys) mixing admin/allowance/permission changes with Execute calls carrying 0-5 CosmosMsg of every kind in this build (bank send/burn, staking x3, distribution x3, wasm x3, ibc x2, gov, stargate, any) from admins, subkeys, ex-admins and strangers; each Execute is judged against an independent authorisation model evaluated on the pre-state and the Response.messages are compared element by element with the submitted list. 8 directed histories (multi-send lists around the allowance, forbidden message first/middle/last, allowance drained then topped up without expiry, lapsed then re-granted with amount 0, across height and time expiries); every third subkeys history is upgraded in mid-life through the real migrate. distinct = (proxy kind, caller class, outcome, ordered list of message kinds, model reason)"
     }
     fn assumptions(&self) -> Vec<&'static str> {
         vec![
